@@ -173,6 +173,9 @@ func (p *Program) effectObligations() []sob {
 					if fn.Pkg != nil && isModulePkg(fn.Pkg.Pkg) {
 						continue
 					}
+					if fn.Name() == "init" && fn.Signature.Recv() == nil && fn.Synthetic != "" {
+						continue // the initializer of an imported package: decided by the effects.import obligation of that import
+					}
 					eff := classifyExternal(fn)
 					cnt[fn.String()]++
 					out = append(out, sob{Name: fmt.Sprintf("%s#effects.call.%s.%d", key, fn.String(), cnt[fn.String()]), OK: allowed[eff],
@@ -253,7 +256,15 @@ func (p *Program) lockObligations() []sob {
 			}
 			gname := shortPkg(sp.Pkg.Path()) + "." + n
 			if et := g.Type().(*types.Pointer).Elem(); strings.HasPrefix(types.TypeString(et, nil), "sync.") {
-				continue // the locks themselves
+				switch types.TypeString(et, nil) {
+				case "sync.Mutex", "sync.RWMutex", "sync.Once", "sync.WaitGroup":
+					continue // the locks themselves
+				}
+				// a concurrent container (sync.Map, sync.Pool ...) is safe in itself, but what it hands out is
+				// shared by every evaluator, and an evaluator's own lock does not cover another evaluator
+				out = append(out, sob{Name: "locks.global." + gname, OK: false, Src: gname + " is a package-level concurrent container",
+					Detail: "values handed out by a container shared by all evaluators are shared mutable state unless they are immutable; no contract states that"})
+				continue
 			}
 			var writers, unguarded []string
 			for _, f := range p.libraryFuncs() {
@@ -689,11 +700,12 @@ func (p *Program) determinismObligations() []sob {
 }
 
 // classifyMapRange: the loop driven by a map Range is acceptable when
-//   commutes: its body only stores into a map allocated in this function under the iteration key
-//             (each iteration touches its own key), or
-//   sorted:   it only appends to one local slice which is sorted (sort.Sort / sort.Slice) right after
-//             the loop; the sort key must be injective on the elements - that is a separate claim
-//             recorded in the contract file ("sortkey_injective <reason>") and otherwise a finding.
+//
+//	commutes: its body only stores into a map allocated in this function under the iteration key
+//	          (each iteration touches its own key), or
+//	sorted:   it only appends to one local slice which is sorted (sort.Sort / sort.Slice) right after
+//	          the loop; the sort key must be injective on the elements - that is a separate claim
+//	          recorded in the contract file ("sortkey_injective <reason>") and otherwise a finding.
 func (p *Program) classifyMapRange(f *ssa.Function, r *ssa.Range) (string, bool, string) {
 	// find the loop: header = block of the Next instruction
 	var next *ssa.Next
@@ -978,6 +990,15 @@ func structuralFor(p *Program, id string) []sob {
 		return p.effectObligations()
 	case "C11":
 		return p.lockObligations()
+	case "C08":
+		// an evaluator stays usable after a failed run only if the run released its lock on every path
+		var out []sob
+		for _, o := range p.lockObligations() {
+			if strings.HasSuffix(o.Name, "#locks.critical") {
+				out = append(out, o)
+			}
+		}
+		return out
 	case "C09":
 		return p.pollObligations()
 	case "C19":
